@@ -295,7 +295,7 @@ OutcomeIsReportOrError ==
 NoNodesConforms ==
   \A p \in Procs :
     (pc[p] = "returned" /\ Validating(call[p].entry)
-       /\ PFail(call[p].prof) = 0 /\ DClass[call[p].doc] = "okNoNodes")
+       /\ PClass[call[p].prof] = "ok" /\ DClass[call[p].doc] = "okNoNodes")
       => ret[p].kind = "report"
 
 EveryCallReturns == \A p \in Procs : (pc[p] # "idle") ~> (pc[p] = "idle")
